@@ -25,6 +25,7 @@ pub struct Cfg {
     pub cross_kind: bool,        // reuse an id across template kinds (the later definition replaces the earlier)
     pub nonzero_padding: bool,
     pub odd_padding: bool, // padding that is legal to receive but not what alignment requires
+    pub dual_family: bool, // projected templates may carry the IPv4 and the IPv6 address of one side
 }
 
 impl Default for Cfg {
@@ -46,6 +47,7 @@ impl Default for Cfg {
             cross_kind: false,
             nonzero_padding: true,
             odd_padding: false,
+            dual_family: false,
         }
     }
 }
@@ -535,8 +537,8 @@ impl Exporter {
             let mut seen = std::collections::BTreeSet::new();
             fields.retain(|f| {
                 let key = match f.0 {
-                    8 | 27 => 1000,
-                    12 | 28 => 1001,
+                    8 | 27 if !cfg.dual_family => 1000,
+                    12 | 28 if !cfg.dual_family => 1001,
                     x => x,
                 };
                 !V9_PROJECTED.contains(&f.0) || seen.insert(key)
@@ -783,8 +785,8 @@ impl Exporter {
             let mut seen = std::collections::BTreeSet::new();
             fields.retain(|f| {
                 let key = match f.type_num {
-                    8 | 27 => 1000,
-                    12 | 28 => 1001,
+                    8 | 27 if !cfg.dual_family => 1000,
+                    12 | 28 if !cfg.dual_family => 1001,
                     x => x,
                 };
                 f.enterprise.is_some() || !IPFIX_PROJECTED.contains(&f.type_num) || seen.insert(key)
